@@ -93,7 +93,10 @@ ShortcutRoots == { Obj(<<SC("@K", Lit(NumD(N1), <<>>))>>, <<>>),
                    Obj(<<SC("@KE", Lit(NumD(N1), <<>>))>>, <<>>) }
 AllOfRoots == { Obj(<<P(Kx, Lit(NumD(N1), <<OptR>>))>>, <<R("allOf", TRef("@C"))>>),
                 Obj(<<>>, <<R("allOf", ListV(<<TRef("@A2"), TRef("@AA")>>))>>),
-                Obj(<<P(Kp, Ref(<<"@AAA">>, <<>>))>>, <<R("allOf", TRef("@A2")), R("additionalProperties", IdV("integer"))>>) }
+                Obj(<<P(Kp, Ref(<<"@AAA">>, <<>>))>>, <<R("allOf", TRef("@A2")), R("additionalProperties", IdV("integer"))>>),
+                \* inheritance on two levels of one example: an object with allOf one of whose own properties is an object with its own allOf
+                Obj(<<P(Kp, Obj(<<P(Kx, Lit(NumD(N1), <<>>))>>, <<R("allOf", TRef("@A2"))>>))>>, <<R("allOf", TRef("@A1"))>>),
+                Obj(<<P(Kp, Arr(<<Obj(<<>>, <<R("allOf", TRef("@A2"))>>)>>, <<>>))>>, <<R("allOf", TRef("@A1"))>>) }
 Roots == RefPositions \cup ArrRoots \cup PropRoots \cup AddlRoots \cup ShortcutRoots \cup AllOfRoots
 
 \* ---- documents ----
@@ -112,6 +115,8 @@ Special == { RecDoc2, ObjD(<<KVp(Kx, NumD(N1)), KVp(Kr, RecDoc2)>>), ObjD(<<KVp(
              ObjD(<<KVp(Kp, ObjD(<<KVp(Ka, NumD(N1)), KVp(Kb, NumD(N2)), KVp(Kc, NumD(N3))>>))>>),
              ObjD(<<KVp(Ka, NumD(N1)), KVp(Kb, NumD(N2)), KVp(Kc, NumD(N3))>>), ObjD(<<KVp(Ka, NumD(N1)), KVp(Kc, StrD(Ss))>>),
              ObjD(<<KVp(Ka, NumD(N1)), KVp(Kd, NumD(N1)), KVp(Kb, NumD(N2))>>), ObjD(<<KVp(Kp, ObjD(<<KVp(Ka, NumD(N1)), KVp(Kd, NumD(N1))>>)), KVp(Kx, NumD(N7))>>),
+             ObjD(<<KVp(Ka, NumD(N1)), KVp(Kp, ObjD(<<KVp(Kx, NumD(N1)), KVp(Kb, NumD(N2))>>))>>), ObjD(<<KVp(Ka, NumD(N1)), KVp(Kp, ObjD(<<KVp(Kx, NumD(N1))>>))>>),
+             ObjD(<<KVp(Ka, NumD(N1)), KVp(Kp, ArrD(<<ObjD(<<KVp(Kb, NumD(N2))>>)>>))>>), ObjD(<<KVp(Ka, NumD(N1)), KVp(Kp, ArrD(<<ObjD(<<>>)>>))>>),
              ArrD(<<ArrD(<<NumD(N1)>>)>>), ObjD(<<KVp(Kp, ArrD(<<NumD(N1), StrD(Sa)>>))>>), ObjD(<<KVp(Kp, StrD(Sa_b))>>),
              ObjD(<<KVp(Ka, NumD(N1)), KVp(Kzz, StrD(Sa_b))>>), ObjD(<<KVp(Ka, NumD(N1)), KVp(Kzz, NumD(N1_5))>>), ObjD(<<KVp(Ka, NumD(N1)), KVp(Kzz, BoolD(TRUE))>>),
              ObjD(<<KVp(Kabc, NumD(N1)), KVp(Kabd, NumD(N1)), KVp(Kab, StrD(Ss))>>), ObjD(<<KVp(Kabc, NumD(N1)), KVp(Kzz, StrD(Ss))>>),
